@@ -141,6 +141,11 @@ PAYLOADS = [
     "é ß 漢 ²",
     "r\"x\" b'y' f\"{1}\"",
     "' \" ''' \"\"\" {} # %",
+    # backslash combinations: excused (class 'backslash') in names and values, where the escaping kernel does not handle
+    # them; descriptive text goes through safe_docstring / the TOML escape, which must cope
+    'a\\b"""c',
+    '"""\\',
+    "\\",
 ]
 DANGEROUS_NAMES = {"__import__", "os", "system", "getcwd"}
 
@@ -250,6 +255,13 @@ _W = _re.compile(r"\w")
 DOC_KINDS = {"property description", "example", "enum description", "const description", "int description", "date description", "list description", "parameter schema description", "model description", "model example", "component enum description", "wrapper description", "int enum description"}
 
 
+def _descriptive(kind: str) -> bool:
+    """Slots whose text only ever lands in a docstring / comment-like position (measured: a backslash is harmless there)."""
+    if kind.startswith("info"):  # title / version / description also go into pyproject.toml and setup.py (C05-K5)
+        return False
+    return kind in DOC_KINDS or any(w in kind for w in ("description", "example", "title", "summary")) or kind in ("tag", "operationId")
+
+
 def _has_w_not_xid(p: str) -> bool:
     return any(_W.match(c) and not ("a" + c).isidentifier() for c in p)
 
@@ -263,7 +275,7 @@ CLASSES = {
     "version_dquote": lambda k, p: k == "info version" and '"' in p,
     "default_dquote": lambda k, p: k in ("string default", "parameter default") and '"' in p,
     "w_not_xid": lambda k, p: _has_w_not_xid(p),
-    "backslash": lambda k, p: "\\" in p,
+    "backslash": lambda k, p: "\\" in p and not _descriptive(k),
     "linebreak": lambda k, p: "\n" in p or "\r" in p,
     "nul": lambda k, p: "\0" in p,
 }
